@@ -1,4 +1,5 @@
-"""C05 - cross-target machine code preserves IR behaviour (x86_64 native; riscv / riscv:rvc through vf/rv32.py)."""
+"""C05 - cross-target machine code preserves IR behaviour (x86_64 native; riscv / riscv:rvc through vf/rv32.py; arm (A32) through
+vf/arm32.py)."""
 
 import os
 import shutil
@@ -16,10 +17,19 @@ RULE = (
     "0/1/2/s; every function is compiled with ppci.api.ir_to_object and executed as machine code: x86_64 natively "
     "(relocatable ELF linked by gcc with a generated C driver that calls each function through the System V ABI with "
     "boundary-biased arguments incl. more arguments than registers, prints the result, the bytes of every global and of "
-    "the caller buffers and logs external calls), riscv / riscv:rvc in the RV32IMC emulator vf/rv32.py when available. "
+    "the caller buffers and logs external calls), riscv / riscv:rvc in the RV32IMC emulator vf/rv32.py and arm (A32, not "
+    "thumb) in the ARMv7-A emulator vf/arm32.py, each when available (arm only when the emulator passes its own self-check; "
+    "otherwise the arm part is dropped with a note). Emulated targets: the object is linked by ppci's own linker with the "
+    "architecture's own runtime (arm: __sdiv) at fixed addresses, called through ppci's calling convention for the target "
+    "(arm: r1..r4, further arguments in the caller's frame, result r0, r5..r11 and sp must come back unchanged, r0..r4/r12 "
+    "are scrambled by every external call), externals are emulator hooks with the reference interpreter's deterministic "
+    "results. Integer types up to 32 bits on the 32 bit targets (ppci's riscv/arm back ends have no 64 bit integers, arm no "
+    "floats). Sixteen shards draw x86_64/riscv/riscv:rvc cases, sixteen more draw arm cases. "
     "Modules use the generator's loop-phi-live-after-the-loop shapes (phi_liveout). A fixed corpus (replays/C05/corpus_*: "
-    "every binary operator, comparison and widening/narrowing cast per integer type with all operands kept live, and calls "
-    "with 9 mixed-type arguments, per target) is replayed before the search. "
+    "every binary operator, comparison and widening/narrowing cast per integer type with all operands kept live, calls "
+    "with 9 mixed-type arguments, per target; arm also: comparisons and '>>' of wrapped 8/16 bit sums, loads of every narrow "
+    "type widened, stores next to neighbours, external calls with values live across them, division) is replayed before "
+    "the search; a deterministic sweep puts constants at the edges of the immediate / displacement fields. "
     "Oracle: the reference interpreter vf/irsem.py on the same module, run under three memory layouts (address dependent "
     "and never initialised parts masked; executions undefined in IR terms discarded). Shapes that reach an open finding "
     "are excluded per target (evidence key excluded_shapes). "
@@ -28,14 +38,18 @@ RULE = (
 ASSUMPTIONS = [
     "IR semantics of DESIGN.md 3.1; external routines are pure functions of (name, arguments, call index)",
     "modules the code generator rejects or crashes on are C29's subject and are discarded here (counted)",
-    "arm, arm:thumb, m68k and mips are NOT covered: no emulator for them exists in this sandbox",
+    "arm: the calling convention is the one ppci's own ArmArch implements (determine_arg_locations / gen_call / gen_prologue), not the AAPCS; "
+    "the upper register bits of an 8/16 bit argument or result carry no information (arguments are passed sign/zero extended, results are truncated)",
+    "arm:thumb, m68k and mips are NOT covered: no emulator for them exists in this sandbox (vf/arm32.py implements A32 only)",
 ]
-TRUSTED = ["CPython", "Hypothesis", "vf/irsem.py", "vf/genir.py", "gcc/ld (driver and linking)", "host CPU", "vf/rv32.py (validated against llvm-mc and clang-compiled code)"]
+TRUSTED = ["CPython", "Hypothesis", "vf/irsem.py", "vf/genir.py", "gcc/ld (driver and linking)", "host CPU", "vf/rv32.py (validated against llvm-mc and clang-compiled code)",
+           "vf/arm32.py (ARMv7-A A32 emulator written from the ARM ARM; its self-check against llvm-mc, clang-compiled C vs native gcc and hand vectors must pass, else arm is not checked)",
+           "ppci.binutils.linker + layout (emulated targets are linked by ppci itself; C11/C12 check it)"]
 REGISTER = True
-TECHNIQUE = "differential: machine code executed natively (x86_64) / in a validated emulator (riscv) vs reference IR interpreter, Hypothesis-generated IR modules"
+TECHNIQUE = "differential: machine code executed natively (x86_64) / in a validated emulator (riscv, arm) vs reference IR interpreter, Hypothesis-generated IR modules"
 LEVEL_TEXT = (
     "Exploration with a differential oracle: the code generator's output for generated IR functions is executed (natively on "
-    "x86-64, in an independently validated emulator for RISC-V) and compared with an independent IR interpreter on return "
+    "x86-64, in independently validated emulators for RISC-V and ARM A32) and compared with an independent IR interpreter on return "
     "value, global memory, caller buffers and external calls at every optimisation level. No bound is closed; targets "
     "without an executor in this sandbox are listed as not covered."
 )
@@ -680,6 +694,46 @@ def _kf10_rewrite_call(desc, call):
     return d, call
 
 
+def _kf11_accesses(f):
+    """(block, index, instruction, operand position) of the 8/16 bit accesses that use ldrsb / ldrh / ldrsh / strh (8 bit split
+    immediate) directly at the address of an alloca"""
+    ty = _value_types(f)
+    direct = {i[1] for b in f["blocks"] for i in b["ins"] if i[0] == "addr"}
+    for b in f["blocks"]:
+        for k, i in enumerate(b["ins"]):
+            if i[0] == "load" and i[2] in ("i8", "i16", "u16") and i[3] in direct:
+                yield b, k, i, 3
+            elif i[0] == "store" and ty.get(i[1]) in ("i16", "u16") and i[2] in direct:
+                yield b, k, i, 2
+
+
+def _kf11_frame(f):
+    """bytes of the frame taken by the allocas of f (they get the fp offsets next to fp in order of appearance)"""
+    n = 0
+    for b in f["blocks"]:
+        for i in b["ins"]:
+            if i[0] == "alloc":
+                n = -(-(n + i[2]) // max(i[3], 1)) * max(i[3], 1)
+    return n
+
+
+def _kf11_shape(desc):
+    return any(_kf11_frame(f) > 255 and any(True for _ in _kf11_accesses(f)) for f in desc["functions"])
+
+
+def _kf11_rewrite(desc):
+    """the address of such an access goes through a volatile stack slot first, so that it is a plain register and not a
+    frame pointer + offset operand"""
+    for f in desc["functions"]:
+        n = 0
+        for b, k, i, pos in reversed(list(_kf11_accesses(f))):
+            base = "%s_ka%d" % (f["name"], n)
+            n += 1
+            b["ins"][k:k] = [["alloc", base + "s", 4, 4], ["addr", base + "p", base + "s"], ["store", i[pos], base + "p", True], ["load", base, "ptr", base + "p", True]]
+            i[pos] = base
+    return desc
+
+
 FINDINGS = {
     # riscv: SHRU8/SHRU16/DIVU16/REMU16 work on the whole register although the upper bits of a narrow value are undefined
     "C05-KF1": {"targets": RV, "shape": _kf1_shape, "rewrite": lambda ins: _rw_widen(ins, ins[2]),
@@ -715,6 +769,9 @@ FINDINGS = {
     # arm: the fifth and further arguments: the caller stores them 8 bytes too high, the callee never loads them
     "C05-KF10": {"targets": ARM, "module_shape": _kf10_shape, "call_rewrite": _kf10_rewrite_call, "forbid": [],
                  "profile_kw": {"max_params": 4, "tailrec": False}},
+    # arm: ldrsb / ldrh / ldrsh / strh directly at a frame slot more than 255 bytes away from fp: the 8 bit split immediate
+    # is truncated.  The generator has no knob for frame sizes: drawn cases with the shape are skipped (exact feature test)
+    "C05-KF11": {"targets": ARM, "module_shape": _kf11_shape, "module_rewrite": _kf11_rewrite, "forbid": [], "skip_shape": True},
 }
 
 
@@ -895,6 +952,12 @@ def _worker(arg):
 
     def prop(case):
         for kid in active_findings(case["target"]):
+            if FINDINGS[kid].get("skip_shape"):
+                # no generator flag removes this shape: a drawn case that has it is not evaluated
+                if has_shape(case["module"], kid):
+                    stats.excluded[kid] += 1
+                    return None
+                continue
             stats.excluded[kid] += 1  # the case was drawn from a profile without that finding's triggering shapes
         msg, defined, ran = run_case(case, stats, exclude=True)
         big = genir.count_instructions(case["module"]) >= 8
@@ -1010,7 +1073,7 @@ def run(ctx):
     shards = [(subseed(ctx.seed, PID, w), max(1, n // 16), base) for w in range(16)]
     if arm:
         # shards of their own (the draws of the sixteen shards above stay what they were before arm was added)
-        n_arm = ctx.scale(96, 4800)
+        n_arm = ctx.scale(256, 9600)
         shards += [(subseed(ctx.seed, PID, 16 + w), max(1, n_arm // ARM_SHARDS), ("arm",)) for w in range(ARM_SHARDS)]
     ctx.pmap(_worker, shards)
     sweep = []
